@@ -5,6 +5,7 @@
 -/
 import AmiscProofs.IndexExtra
 import AmiscProofs.SparseBridge
+import AmiscModel.Generated.Logic
 
 namespace Amisc.C01
 
@@ -118,6 +119,63 @@ theorem lookahead_eq_IE (box : Idx) (rs : List Idx) (h : WT box rs) (c : Idx) (h
     rw [hlen s hs, hlen i hi]
   · rw [if_neg hi]
     exact CMap.get_of_not_has (fun hh => hi ((hhas i).mp hh))
+
+/-- `sgn k = (-1)^k` -/
+theorem sgn_eq_pow (k : Nat) : sgn k = (-1 : Int) ^ k := by
+  induction k with
+  | zero => simp [sgn]
+  | succ k ih => rw [sgn_succ, ih, pow_succ]; ring
+
+/-- **the update rule GENERATED from `Component.update_misc_coeff` on every run is the model's rule**: for two indices of
+    equal length, `if np.all(np.isin(new - old, [0, 1])): coeff += (-1) ** int(np.sum(np.abs(new - old)))` contributes exactly
+    `sgn |new − old|₁` when `new − old ∈ {0,1}^d` and nothing otherwise (`cubeDist`, `sgn` of `AmiscModel.Index`) -/
+theorem generated_update_rule_is_model : ∀ (n o : Idx), n.length = o.length →
+    Gen.coeffTerm (List.zipWith (fun (a b : Nat) => (a : Int) - (b : Int)) n o) = (cubeDist n o).map sgn
+  | [], [], _ => by simp [Gen.coeffTerm, cubeDist, sgn]
+  | [], _ :: _, h => by simp at h
+  | _ :: _, [], h => by simp at h
+  | a :: n, b :: o, h => by
+      have hl : n.length = o.length := by simpa using h
+      have ih := generated_update_rule_is_model n o hl
+      unfold Gen.coeffTerm at ih ⊢
+      rw [cubeDist]
+      simp only [List.zipWith_cons_cons, List.all_cons, List.map_cons, List.sum_cons]
+      by_cases h1 : a = b
+      · subst h1
+        simp only [sub_self, if_true]
+        have : ([0, 1] : List Int).contains 0 = true := by decide
+        simp only [this, Bool.true_and, Int.natAbs_zero, zero_add]
+        exact ih
+      · by_cases h2 : a = b + 1
+        · subst h2
+          have e : ((b + 1 : Nat) : Int) - (b : Int) = 1 := by push_cast; ring
+          simp only [e, h1, if_false, if_true]
+          have : ([0, 1] : List Int).contains 1 = true := by decide
+          simp only [this, Bool.true_and, Int.natAbs_one]
+          split at ih
+          · next hall =>
+              rw [if_pos hall]
+              cases hc : cubeDist n o with
+              | none => rw [hc] at ih; simp at ih
+              | some k =>
+                  rw [hc] at ih
+                  simp only [Option.map_some, Option.some.injEq] at ih ⊢
+                  rw [sgn_succ, ← ih, pow_add, pow_one]; ring
+          · next hall =>
+              rw [if_neg hall]
+              cases hc : cubeDist n o with
+              | none => rfl
+              | some k => rw [hc] at ih; simp at ih
+        · have hne : ¬ (([0, 1] : List Int).contains ((a : Int) - (b : Int)) = true) := by
+            simp only [List.contains_cons, List.contains_nil, Bool.or_false, Bool.or_eq_true, beq_iff_eq, not_or]
+            constructor
+            · intro e; apply h1; omega
+            · intro e; apply h2; omega
+          simp only [h1, h2, if_false]
+          rw [if_neg]
+          · rfl
+          · simp only [Bool.and_eq_true, not_and]
+            intro hc; exact absurd hc hne
 
 /-- **Training-mode weights sum to exactly 1** after any request history that activated something. -/
 theorem train_weights_sum_one (box : Idx) (rs : List Idx) (h : WT box rs) (hne : (run box rs).active ≠ []) :
